@@ -10,7 +10,7 @@ from __future__ import annotations
 
 import random
 
-from mc.common import Ctx, pmap
+from mc.common import Ctx, pmap, tag
 from mc.explore import bfs_levels
 from mc.fd import ParsingMode, build, snap
 
@@ -177,6 +177,8 @@ def step(task):
                     "got": repr(obs)[:300], "fresh": repr(want)[:300],
                     "got_n": len(obs) if isinstance(obs, tuple) else None, "fresh_n": len(want) if isinstance(want, tuple) else None,
                     "sig": f"{hist[-1][0] if hist else '-'}->{ev[0]}"}
+    if viol:
+        tag(viol, "mc.checks.c12", "step", task)
     return (cache_canon(spec, held), viol, True)
 
 
